@@ -1,8 +1,9 @@
 CONSTANTS
-  NameLens = {1, 12, 100, 255}
-  MaxEntries = 6
+  NameLens = {1, 12, 100, 181, 205, 213, 221, 229, 237, 245, 255}
+  MaxEntries = 4
   Window = 512
   Early = 0
+  EodSlack = 0
 INIT Init
 NEXT Next
 INVARIANTS EachOnceInOrder NoPartial
